@@ -9,8 +9,25 @@ import json
 import os
 import sys
 
-RUST_TY = {"u8": "u8", "u16": "u16", "u32": "u32", "u64": "u64", "bool": "bool", "vecu8": "Vec<u8>", "optu16": "Option<u16>", "str": "String"}
-WIDTH = {"u8": 1, "u16": 2, "u32": 4, "u64": 8}
+RUST_TY = {"u8": "u8", "u16": "u16", "u32": "u32", "u64": "u64", "bool": "bool", "vecu8": "Vec<u8>", "optu16": "Option<u16>", "str": "String",
+           "gen": "T", "vecgen": "Vec<T>"}
+# what the generic parameter is instantiated with
+INST = {"T": "u16", "Vec<T>": "Vec<u16>"}
+WIDTH = {"u8": 1, "u16": 2, "u32": 4, "u64": 8, "gen": 2}
+
+
+def is_generic(d):
+    fss = [d.get("fs", [])] if d["kind"] == "struct" else [v["fs"] for v in d.get("vs", [])]
+    return any(f["ty"] in ("gen", "vecgen") for fs in fss for f in fs)
+
+
+def needs_hascompact(d):
+    fss = [d.get("fs", [])] if d["kind"] == "struct" else [v["fs"] for v in d.get("vs", [])]
+    return any(f["ty"] == "gen" and f["attr"] in ("compact",) for fs in fss for f in fs)
+
+
+def inst(ty):
+    return INST.get(ty, ty)
 
 
 def sample(lines, seed, count):
@@ -49,6 +66,14 @@ def fields_src(fs, shape, pub):
 
 
 def type_src(name, d, derives):
+    if d["kind"] in ("struct", "enum") and is_generic(d):
+        bound = "T: parity_scale_codec::HasCompact" if needs_hascompact(d) else "T"
+        plain = type_src_plain(name, d, derives)
+        return plain.replace("pub struct %s" % name, "pub struct %s<%s>" % (name, bound), 1).replace("pub enum %s" % name, "pub enum %s<%s>" % (name, bound), 1)
+    return type_src_plain(name, d, derives)
+
+
+def type_src_plain(name, d, derives):
     if d["kind"] == "struct":
         rep = "#[repr(transparent)]\n" if d.get("transparent") else ""
         shape = d["shape"]
@@ -99,7 +124,7 @@ def abs_expr(f, access):
 
 def mel_capable(d):
     def ok(fs):
-        return all(f["attr"] == "skip" or f["ty"] in ("u8", "u16", "u32", "u64", "bool", "optu16") for f in fs)
+        return all(f["attr"] == "skip" or f["ty"] in ("u8", "u16", "u32", "u64", "bool", "optu16", "gen") for f in fs)
     def skip_ok(fs):
         # skipped fields are not bounded by the derive, any type is fine
         return True
@@ -111,7 +136,8 @@ def mel_capable(d):
 def reg_impl(name, d, layout):
     lj = json.dumps(layout)
     out = []
-    out.append("impl Reg for %s {" % name)
+    tname = name + ("<u16>" if is_generic(d) else "")
+    out.append("impl Reg for %s {" % tname)
     zlen = "true" if (layout["k"] == "tuple" and not layout["ts"]) else "false"
     out.append("\tconst ZLEN: bool = %s;" % zlen)
     out.append('\tfn name() -> String { "%s".into() }' % name)
@@ -123,7 +149,7 @@ def reg_impl(name, d, layout):
             out.append("\tfn abs(&self) -> Value { json!([]) }")
         else:
             tup = d["shape"] == "tuple"
-            gens = ["<%s as Reg>::gen(g)" % RUST_TY[f["ty"]] for f in fs]
+            gens = ["<%s as Reg>::gen(g)" % inst(RUST_TY[f["ty"]]) for f in fs]
             if tup:
                 out.append("\tfn gen(g: &mut G) -> Self { g.nested(|g| %s(%s)) }" % (name, ", ".join(gens)))
             else:
@@ -140,7 +166,7 @@ def reg_impl(name, d, layout):
         arms = []
         for pos, i in enumerate(enc):
             v = vs[i]
-            gens = ["<%s as Reg>::gen(g)" % RUST_TY[f["ty"]] for f in v["fs"]]
+            gens = ["<%s as Reg>::gen(g)" % inst(RUST_TY[f["ty"]]) for f in v["fs"]]
             if not v["fs"]:
                 ctor = "%s::V%d" % (name, i)
             elif len(v["fs"]) == 1:
@@ -197,7 +223,7 @@ def skipped_ctor(name, d):
         return None
     for i, v in enumerate(d["vs"]):
         if v["skip"]:
-            gens = ["<%s as Reg>::gen(g)" % RUST_TY[f["ty"]] for f in v["fs"]]
+            gens = ["<%s as Reg>::gen(g)" % inst(RUST_TY[f["ty"]]) for f in v["fs"]]
             if not v["fs"]:
                 return "%s::V%d" % (name, i)
             if len(v["fs"]) == 1:
@@ -209,7 +235,17 @@ def skipped_ctor(name, d):
 def cmd_layout(path, seed, count, out):
     lines = [l.strip() for l in open(path) if l.strip()]
     # always include the structurally interesting corners, then a seeded sample
-    chosen = sample(lines, seed, count)
+    # stratified: the enum family is far larger than the struct family, so sample them separately; always keep the
+    # transparent structs and a share of generic ones
+    kinds = {l: json.loads(l)["def"] for l in lines}
+    structs = [l for l in lines if kinds[l]["kind"] == "struct"]
+    enums = [l for l in lines if kinds[l]["kind"] == "enum"]
+    transparent = [l for l in structs if kinds[l].get("transparent")]
+    generic = [l for l in structs if is_generic(kinds[l]) and l not in transparent]
+    plain = [l for l in structs if l not in transparent and l not in generic]
+    n_s = count * 45 // 100
+    chosen = transparent + sample(generic, seed, n_s // 3) + sample(plain, seed, max(0, n_s - n_s // 3 - len(transparent)))
+    chosen += sample(enums, seed, max(0, count - len(chosen)))
     src = []
     src.append("//! GENERATED by bin/gen_programs.py from the definitions TLC enumerated (spec/Gen_Derive.tla).")
     src.append("//! seed=%d count=%d.  Do not edit." % (seed, len(chosen)))
@@ -227,21 +263,22 @@ def cmd_layout(path, seed, count, out):
         mel = mel_capable(d)
         derives = "Encode, Decode, DecodeWithMemTracking, Debug, Clone, PartialEq"
         t = type_src(name, d, derives)
-        if mel:
+        if mel and not (is_generic(d) and d["kind"] == "enum"):
             t = t.replace("#[derive(", '#[cfg_attr(feature = "max-encoded-len", derive(MaxEncodedLen))]\n#[derive(', 1)
-            mel_names.append(name)
+            mel_names.append(name + ("<u16>" if is_generic(d) else ""))
         src.append("// " + json.dumps(d))
         src.append(t)
         src.append(reg_impl(name, d, layout))
-        names.append(name)
+        tname = name + ("<u16>" if is_generic(d) else "")
+        names.append(tname)
         has_value = not (d["kind"] == "enum" and all(v["skip"] for v in d["vs"]))
         if has_value:
-            nonempty.append(name)
+            nonempty.append(tname)
         if d["kind"] == "struct" and d.get("transparent"):
-            transp.append(name)
+            transp.append(tname)
         sc = skipped_ctor(name, d)
         if sc:
-            skipctors.append((name, sc))
+            skipctors.append((tname, sc))
         src.append("")
     src.append("#[macro_export]\nmacro_rules! each_generated_type {\n\t($f:ident, $args:tt) => {\n\t\teach_codec_type!(@list $f, $args; %s);\n\t};\n}" %
                ", ".join(["$crate::generated::%s" % n for n in nonempty] +
